@@ -11,6 +11,21 @@ def judge(case):
     runner = lambda arrs, rg: cat.run_lib(case, arrs, rg)
     kinks = "ties" in (case.get("pats") or [])
     viol, info = gradcheck.check(runner, arrays, list(range(len(arrays))), case["op"], kinks=kinks)
+    # the same Tensor object in several operand slots of ONE operation (x*x, concat([h, b, h]), x @ x, ...)
+    n = len(arrays)
+    pats = case.get("pats") or ["generic"] * n
+    if info.get("accepted") and not viol and n >= 2 and not kinks:
+        pairs = [(0, n - 1)] + ([(0, 1)] if n >= 3 else [])
+        for (i, j) in pairs:
+            if tuple(case["shapes"][i]) != tuple(case["shapes"][j]) or pats[i] != pats[j]: continue
+            def shared(arrs, rg, i=i, j=j):
+                sg = harness.load()
+                red = [sg.Tensor(np.array(a, copy=True), requires_grad=bool(r)) for a, r in zip(arrs, rg or [False] * len(arrs))]
+                full = red[:j] + [red[i]] + red[j:]
+                return cat.OPS[case["op"]].lib(sg, full, case.get("args") or {}), red
+            reduced = arrays[:j] + arrays[j + 1:]
+            v2, _ = gradcheck.check(shared, reduced, list(range(len(reduced))), case["op"] + f"[operand {i} is operand {j}]", subsets=False)
+            viol += v2
     nt = bool(info.get("accepted") and info.get("nonzero") and any(a.size > 1 for a in arrays))
     return {"nontrivial": nt, "outcome": "accepted" if info.get("accepted") else "rejected", "violations": viol}
 
@@ -27,7 +42,7 @@ def run(tier, seed):
                    "reductions over every signed dim tuple x keepdims, squeeze/unsqueeze/reshape/movedim/transpose/flatten/"
                    "unfold over every argument); per case: backward for EVERY basis vector of the output vs 4th-order FD "
                    "Jacobian of the library's float64 forward (tol 1e-7), all-ones and dense g (linearity), every non-empty "
-                   "requires_grad subset; ties by one-sided bracket test; non-trivial = accepted, Jacobian has a non-zero "
+                   "requires_grad subset; the same Tensor object in two operand slots of one operation (same-shaped slots); ties by one-sided bracket test; non-trivial = accepted, Jacobian has a non-zero "
                    "entry, some operand has >1 element",
            "samples": r["samples"], "exhaustive": True, "outcomes": r["outcomes"]}
     return {"level": "exploration", "violations": r["violations"], "coverage": cov,
